@@ -1103,6 +1103,121 @@ pub fn div_nx1(limbs: &mut [u64], divisor: u64) -> /*+*/(r:/*-*/ u64/*+*/)
 }
 //@ end
 
+//@ extract src/algorithms/div/small.rs fn div_nx2 rewrite="* ( & mut limbs $1 )" => "limbs $1" #1 rewrite="( & limbs $1 )" => "limbs $1" #3
+pub fn div_nx2(limbs: &mut [u64], divisor: u128) -> /*+*/(r:/*-*/ u128/*+*/)
+    requires divisor as int >= B, old(limbs).len() >= 1, old(limbs)@[old(limbs).len() - 1] != 0
+    ensures final(limbs).len() == old(limbs).len(), r < divisor,
+        lvr(old(limbs)@, 0, old(limbs).len() as int) == lvr(final(limbs)@, 0, old(limbs).len() as int) * divisor as int + r as int/*-*/
+{
+    /*+*/proof { assert((1u128 << 64) == 0x1_0000_0000_0000_0000u128) by(bit_vector); assert(B * B == 0x1_0000_0000_0000_0000_0000_0000_0000_0000) by(compute_only); }/*-*/
+    vassert (divisor >= 1 << 64 );
+    vassert (!limbs.is_empty() );
+    vassert (*limbs.last().unwrap() != 0 );
+    /*+*/let ghost d0 = divisor as int;
+    let ghost dh = d0 / B;
+    proof {
+        lemma_fundamental_div_mod(d0, B);
+        assert(dh >= 1) by(nonlinear_arith) requires d0 == B * dh + d0 % B, d0 % B < B, d0 >= B, B > 0;
+        assert(dh < B) by(nonlinear_arith) requires d0 == B * dh + d0 % B, d0 % B >= 0, d0 < B * B, B > 0;
+    }/*-*/
+    let shift = divisor.high().leading_zeros();
+    /*+*/proof { lemma_lz_facts(dh as u64); }/*-*/
+    if shift == 0 {
+        /*+*/proof {
+            lemma2_to64(); assert(dh * 1 == dh) by(nonlinear_arith);
+            assert(d0 >= B * B / 2) by(nonlinear_arith) requires d0 == B * dh + d0 % B, d0 % B >= 0, dh >= B / 2, B == 0x1_0000_0000_0000_0000;
+        }/*-*/
+        return div_nx2_normalized(limbs, divisor);
+    }
+    /*+*/let ghost s2 = pow2(shift as nat) as int;
+    let ghost c = pow2((64 - shift) as nat) as int;
+    let ghost n = limbs.len() as int;
+    let ghost l0 = limbs@;
+    proof {
+        lemma_pow2_adds((64 - shift) as nat, shift as nat); lemma2_to64(); lemma_pow2_pos((64 - shift) as nat); lemma_pow2_pos(shift as nat);
+        assert(c * s2 == B);
+        // d0 * s2 < B^2 : dh * s2 < B
+        assert(dh + 1 <= c) by(nonlinear_arith) requires dh * s2 < c * s2, s2 >= 1;
+        assert(d0 * s2 < B * B) by(nonlinear_arith) requires d0 == B * dh + d0 % B, d0 % B <= B - 1, dh + 1 <= c, c * s2 == B, s2 >= 1, dh >= 0;
+        lemma_u128_shl_is_mul(divisor, shift);
+        assert(d0 * s2 >= B * B / 2) by(nonlinear_arith) requires d0 == B * dh + d0 % B, d0 % B >= 0, dh * s2 >= B / 2, s2 >= 1, B == 0x1_0000_0000_0000_0000;
+    }/*-*/
+    let divisor = divisor << shift;
+    let reciprocal = reciprocal_2(divisor);
+    let last = limbs [limbs.len() - 1 ];
+    let mut remainder: u128 = u128::from(last >> (64 - shift));
+    /*+*/proof {
+        lemma_u64_shr_is_div(last, (64 - shift) as u64);
+        assert(remainder as int == (last as int) / c);
+        lemma_shl_or_shr_u64(0, last, shift);
+        assert(lvr(l0, n, n) == 0);
+        assert(0 * (divisor as int) == 0);
+        assert(vsh(l0, n, n, s2, c) == remainder as int);
+        assert(s2 <= divisor as int) by(nonlinear_arith) requires divisor as int == d0 * s2, d0 >= 1, s2 >= 1;
+    }/*-*/
+    for i in /*+*/iter:/*-*/ (1..limbs.len()).rev()
+        /*+*/invariant
+            limbs.len() == n, l0.len() == n, n >= 1, 0 < shift < 64, c * s2 == B, c >= 1, s2 >= 1,
+            s2 == pow2(shift as nat), c == pow2((64 - shift) as nat),
+            divisor as int == d0 * s2, divisor as int >= B * B / 2, is_reciprocal_2(divisor, reciprocal),
+            iter.seq().len() == n - 1,
+            forall|j: int| 0 <= j < n - iter.index@ ==> limbs@[j] == l0[j],
+            remainder < divisor,
+            vsh(l0, n - iter.index@, n, s2, c) == lvr(limbs@, n - iter.index@, n) * divisor as int + remainder as int,/*-*/
+    {
+        /*+*/let ghost k = n - iter.index@;
+        let ghost q_prev = limbs@;
+        let ghost rin = remainder as int;/*-*/
+        let upper = limbs [i ];
+        let lower = limbs [i - 1 ];
+        let u = (upper << shift) | (lower >> (64 - shift));
+        /*+*/proof {
+            assert(i as int == k - 1);
+            lemma_shl_or_shr_u64(upper, lower, shift);
+            lemma_vsh_step(l0, i as int, n, s2, c);
+        }/*-*/
+        let (q, r) = div_3x2(remainder, u, divisor, reciprocal);
+        limbs [i ] = q;
+        /*+*/proof {
+            let ii = i as int; let nn = limbs.len() as int;
+            lemma_lvr_ext(q_prev, limbs@, ii + 1, nn);
+            assert(lvr(limbs@, ii, nn) == q as int + B * lvr(limbs@, ii + 1, nn));
+            let h = lvr(limbs@, ii + 1, nn); let dv = divisor as int;
+            assert(vsh(l0, ii, nn, s2, c) == (q as int + B * h) * dv + r as int) by(nonlinear_arith)
+                requires vsh(l0, ii, nn, s2, c) == vsh(l0, ii + 1, nn, s2, c) * B + u as int,
+                    vsh(l0, ii + 1, nn, s2, c) == h * dv + rin,
+                    q as int * dv + r as int == rin * B + u as int;
+        }/*-*/
+        remainder = r;
+    }
+    /*+*/let ghost q_prev = limbs@;
+    let ghost rem_in = remainder as int;
+    proof { assert(vsh(l0, 1, n, s2, c) == lvr(limbs@, 1, n) * divisor as int + rem_in); assert(limbs@[0] == l0[0]); }/*-*/
+    let first = ( & mut limbs [0 ] );
+    /*+*/proof {
+        lemma_u64_shl_is_mul_mod(l0[0], shift, c, s2);
+        lemma_vsh_step(l0, 0, n, s2, c);
+    }
+    let ghost u0 = (*first << shift) as int;/*-*/
+    let (q, remainder) = div_3x2(remainder, *first << shift, divisor, reciprocal);
+    *first = q;
+    /*+*/proof {
+        let nn = limbs.len() as int;
+        lemma_lvr_ext(q_prev, limbs@, 1, nn);
+        assert(lvr(limbs@, 0, nn) == q as int + B * lvr(limbs@, 1, nn));
+        let nv = lvr(l0, 0, nn); let qv = lvr(limbs@, 0, nn); let rp = remainder as int;
+        let h = lvr(limbs@, 1, nn); let dv = divisor as int;
+        assert(vsh(l0, 0, nn, s2, c) == nv * s2);
+        assert(nv * s2 == qv * (d0 * s2) + rp) by(nonlinear_arith)
+            requires nv * s2 == vsh(l0, 1, nn, s2, c) * B + u0, vsh(l0, 1, nn, s2, c) == h * dv + rem_in,
+                q as int * dv + rp == rem_in * B + u0, qv == q as int + B * h, dv == d0 * s2;
+        lemma_u128_shr_is_div(remainder, shift as u128);
+        lemma_exact_shift(nv, qv, d0, s2, rp);
+    }/*-*/
+    remainder >> shift
+}
+//@ end
+
 // (x << s) as a u64 keeps the low 64-s bits: == (x mod 2^(64-s)) * 2^s
 pub proof fn lemma_u64_shl_is_mul_mod(x: u64, s: u32, c: int, s2: int)
     requires 0 < s < 64, c == pow2((64 - s) as nat), s2 == pow2(s as nat)
